@@ -32,6 +32,13 @@ type vworld struct {
 	curCls  string
 	curLive string
 	snap    *vsnap // private state after the last operation (computed once)
+	large   bool   // reduced alphabet on one large container (large.go)
+	maxZ    int    // large: bound on the stored zeros
+	views   []vview // slice + sibling views left by the last slice-writer operation (views.go)
+	joint   bool    // reduced alphabet with one live joint iterator (joint.go)
+	jforms  []int
+	jmut    bool
+	j       *jslot
 }
 
 func newVWorld(e elem, slots, cap int) *vworld {
@@ -135,6 +142,12 @@ func vecOpName(e elem, o Op, n int) string {
 		return "Iterator.Next"
 	case "idrop":
 		return "Iterator-drop"
+	case "jopen", "jnext", "jdrop", "bset", "bwalk":
+		return jointOpName(o)
+	case "slop":
+		return "Slice+" + vecWriterName(o)
+	case "vop":
+		return "operand:" + vopName(o.W)
 	}
 	return o.C
 }
@@ -155,6 +168,8 @@ func (w *vworld) classify(o Op, pv ad.VerifC11Vec, sh *shape) string {
 		} else {
 			cls = summaryClass(pv)
 		}
+	case "slop":
+		cls = vecWindowClass(o.I, o.J, len(w.model))
 	case "setw", "SETw", "jwalk", "vmulv", "vmulv2", "vsubv":
 		pats := setPatterns(len(w.model))
 		if strings.HasPrefix(o.C, "vmulv") {
@@ -251,6 +266,7 @@ func (w *vworld) apply(o Op) {
 		return
 	}
 	w.curOp, w.curCls = "", ""
+	w.views = nil
 	if !w.quiet {
 		s := w.snapshot()
 		if !s.ok {
@@ -260,6 +276,9 @@ func (w *vworld) apply(o Op) {
 		w.curCls = w.classify(o, s.pv, s.sh)
 	}
 	w.snap = nil
+	if w.j != nil {
+		w.j.flags, w.j.side = 0, jointSide(o)
+	}
 	func() {
 		defer func() {
 			if r := recover(); r != nil {
@@ -268,6 +287,9 @@ func (w *vworld) apply(o Op) {
 		}()
 		w.exec(o)
 	}()
+	if w.j != nil {
+		w.j.noteChanges(w)
+	}
 	w.settle()
 	if !w.quiet && w.warn == "" && w.v != nil {
 		if s := w.snapshot(); s.ok && s.warn != "" {
@@ -448,6 +470,12 @@ func (w *vworld) exec(o Op) {
 		w.cmpWalk("iter", idx, vals, fin, w.nonzero(o.I))
 	case "jwalk":
 		w.execJoint(o)
+	case "slop":
+		w.execSliceOp(o)
+	case "vop":
+		w.execOperand(o)
+	case "jopen", "jnext", "jdrop", "bset", "bwalk":
+		w.execJointOp(o)
 	case "clone":
 		w.v = w.v.CloneVector()
 		w.dropIters()
@@ -742,6 +770,9 @@ func (w *vworld) oracleFresh() {
 	if w.fail != nil || w.v == nil {
 		return
 	}
+	if w.j != nil {
+		w.j.afterFresh = true
+	}
 	func() {
 		defer func() {
 			if r := recover(); r != nil {
@@ -760,6 +791,9 @@ func (w *vworld) oracleFresh() {
 			return
 		}
 		w.readsOf(w.v, w.model, "post-walk-")
+	}
+	if w.fail == nil {
+		w.oracleViews()
 	}
 }
 
@@ -808,7 +842,11 @@ func (w *vworld) oracleLive() {
 			return
 		}
 	}
-	if any {
+	if w.j != nil && w.fail == nil {
+		w.j.finish(w)
+		any = true
+	}
+	if any && w.fail == nil {
 		if w.v.Dim() != len(w.model) {
 			w.failf("post-walk-dim", "Dim() = %d after continuing a live iterator", w.v.Dim())
 			return
@@ -854,6 +892,7 @@ func (w *vworld) canon() string {
 	}
 	sort.Strings(ds)
 	sb.WriteString(strings.Join(ds, ";"))
+	sb.WriteString(w.j.canon(s.sh, s.pv.Tree, s.pv.Self, !w.unstable))
 	return sb.String()
 }
 
@@ -870,6 +909,12 @@ func (w *vworld) outcome() string {
 
 // enabled lists every operation applicable in this state, simplest first.
 func (w *vworld) enabled() []Op {
+	if w.large {
+		return w.enabledLarge()
+	}
+	if w.joint {
+		return w.enabledJoint()
+	}
 	n := len(w.model)
 	var ops []Op
 	for i := 0; i < n; i++ {
@@ -973,4 +1018,17 @@ func contains(l []int, x int) bool {
 		}
 	}
 	return false
+}
+
+// repOps: operations enumerated from the representative state of a content signature only
+// (views.go)
+func (w *vworld) repOps() ([]Op, int) {
+	if w.large || w.joint {
+		return nil, 0 // the operand arithmetic is part of the large alphabet; no slice writers there
+	}
+	ops, skipped := w.sliceOps()
+	for k := 0; k < vopCount; k++ {
+		ops = append(ops, Op{C: "vop", W: k})
+	}
+	return ops, skipped
 }
